@@ -1660,6 +1660,10 @@ func (C07) Replay(raw json.RawMessage) ([]core.Violation, string, error) {
 		return x.vs, digestOf(res), nil
 	}
 	m := sc.build()
+	if p := os.Getenv("VERIF_DUMP"); p != "" {
+		// for whoever triages a replay: the bytes the scenario stands for
+		os.WriteFile(p, m.data, 0644)
+	}
 	if !m.edited {
 		base := sc
 		base.Pipe.CutAt = -1
